@@ -74,6 +74,64 @@ Example C08_second_restart_writer_nonvacuous :
   clean_crash w_its 1 (header ++ concat (recs_of (firstn 1 w_its)) ++ firstn 20 (w_rec 2 0)) (vals (firstn 1 w_its)).
 Proof. split; [exact w_ops_wf|exact C08_second_restart_repaired_nonvacuous]. Qed.
 
+(* Values (the .dat side file).  AofFile.ReadLockData is modelled byte-exactly THROUGH bufio (read_data_b: first read,
+   continuation loop of the 4-byte length prefix, first payload read, continuation loop at offset n+4); the loader uses
+   it with a reader of bufSize*64 bytes, so every theorem above is about the buffered value reader.  The two theorems
+   below are the bufio elimination for values: for EVERY reader state (any buffer size, any split of the stream between
+   buffered bytes and the rest of the file) and values of any length. *)
+Theorem C08_value_straddles_buffer : forall (r : rd) (v D' : bytes),
+  wf_val v -> stream r = v ++ D' ->
+  exists r', read_data_b (Some r) = inl (v, r') /\ stream r' = D' /\ r_size r' = r_size r.
+Proof. exact value_straddles_buffer. Qed.
+Goal True. idtac "ASSUMPTIONS-OF C08_value_straddles_buffer". Abort.
+Print Assumptions C08_value_straddles_buffer.
+(* length prefix straddles the buffered part, payload needs a continuation read, a second value follows *)
+Example C08_value_straddles_buffer_nonvacuous :
+  wf_val x_val /\ stream x_rd = x_val ++ x_next /\ r_buf x_rd = [40; 0] /\ r_size x_rd = 16%nat /\
+  (exists d r1, rd_read x_rd 4 = (d, None, r1) /\ length d = 2%nat) /\
+  exists r', read_data_b (Some x_rd) = inl (x_val, r') /\ stream r' = x_next.
+Proof.
+  split; [exact x_val_wf|]. split; [reflexivity|]. split; [reflexivity|]. split; [reflexivity|]. split.
+  - do 2 eexists. split; [vm_compute; reflexivity|reflexivity].
+  - eexists. split; [vm_compute; reflexivity|reflexivity].
+Qed.
+
+Theorem C08_value_reader_is_stream_reader : forall (r : rd),
+  (forall v s', read_data (Some (stream r)) = inl (v, Some s') ->
+     exists r', read_data_b (Some r) = inl (v, r') /\ stream r' = s' /\ r_size r' = r_size r) /\
+  (forall e, read_data (Some (stream r)) = inr e -> read_data_b (Some r) = inr e).
+Proof. exact value_reader_is_stream_reader. Qed.
+Goal True. idtac "ASSUMPTIONS-OF C08_value_reader_is_stream_reader". Abort.
+Print Assumptions C08_value_reader_is_stream_reader.
+Example C08_value_reader_is_stream_reader_nonvacuous :
+  read_data (Some (stream x_rd)) = inl (x_val, Some x_next) /\ read_data (Some (stream x_rd_cut)) = inr EOF.
+Proof. split; vm_compute; reflexivity. Qed.
+
+(* a value cut short by the crash is end of log (io.EOF), whatever the reader state *)
+Theorem C08_value_truncated_is_eof : forall (r : rd) (v rest : bytes),
+  wf_val v -> v = stream r ++ rest -> rest <> [] -> read_data_b (Some r) = inr EOF.
+Proof. exact value_truncated_is_eof. Qed.
+Goal True. idtac "ASSUMPTIONS-OF C08_value_truncated_is_eof". Abort.
+Print Assumptions C08_value_truncated_is_eof.
+Example C08_value_truncated_is_eof_nonvacuous :
+  wf_val x_val /\ x_val = stream x_rd_cut ++ skipn 32 x_val /\ skipn 32 x_val <> [] /\ read_data_b (Some x_rd_cut) = inr EOF.
+Proof. split; [exact x_val_wf|]. split; [reflexivity|]. split; [discriminate|vm_compute; reflexivity]. Qed.
+
+(* The two caps that make the model executable with unary nat (requested payload length capped at file rest + 1, buffer
+   size of the value reader capped at file length + 1) cannot be observed: the executable value reader equals the one
+   that hands dataLen itself to bufio, and LoadAofFile equals LoadAofFile with bufio.NewReaderSize(dataFile, bufSize*64). *)
+Theorem C08_executable_caps_unobservable :
+  (forall dr : option rd, read_data_b dr = read_data_u dr) /\
+  (forall (fx : fixes) (bs : nat) (now : Z) (aof dat : option bytes) (lbuf : bytes),
+     load_file fx bs now aof dat lbuf = load_file_code fx bs now aof dat lbuf).
+Proof. split; [exact read_data_cap_preserving|exact load_file_dat_rd]. Qed.
+Goal True. idtac "ASSUMPTIONS-OF C08_executable_caps_unobservable". Abort.
+Print Assumptions C08_executable_caps_unobservable.
+(* the caps are active on a garbage length / a small file *)
+Example C08_executable_caps_unobservable_nonvacuous :
+  want_cap 4294967295 x_rd_cut = 33%nat /\ r_size (dat_rd 64 x_next) = 16%nat /\ r_size (dat_rd 64 (repeat 0 5000)) = 4096%nat.
+Proof. split; [|split]; vm_compute; reflexivity. Qed.
+
 (* The source as it is today (indeed any variant): cuts at record boundaries with the header whole. *)
 Theorem C08_first_restart_today_record_boundary : forall (bs : nat) (now : Z) (its : list witem) (n : nat) (D rest : bytes),
   (64 <= bs)%nat -> Forall wf_item its -> (n <= length its)%nat -> vals (firstn n its) = D ++ rest ->
